@@ -118,6 +118,46 @@ def lin_maps(ctx):
                     if abs(float(r[2]) - math.sqrt(float(a @ a))) > 1e-12 * max(1, math.sqrt(float(a @ a))):
                         ctx.fail(cid, 'base.norm', 'mismatch', dict(P0, law='norm'), 'norm %r' % (r[2],))
                     exact(ctx, cid, 'base.colvec', dict(P0, law='colvec'), r[4], a.reshape(3, 1), 'colvec')
+        # every documented option and container form of the same maps (the grids above use the defaults on 1-D arrays)
+        FORMS = (('list', lambda x: x.tolist()), ('tuple', lambda x: tuple(x.tolist())), ('row', lambda x: x.reshape(1, -1).copy()), ('col', lambda x: x.reshape(-1, 1).copy()))
+        for v in itertools.product(vals, repeat=3):
+            a = np.array(v)
+            bb = np.array([v[2], v[0] - dil, v[1] + 2.0 * dil])
+            want = np.array([a[1] * bb[2] - a[2] * bb[1], a[2] * bb[0] - a[0] * bb[2], a[0] * bb[1] - a[1] * bb[0]])
+            for fn, fm in FORMS:
+                cid = 'C13/forms/d%d/%s/%s' % (dil, ','.join('%g' % x for x in v), fn)
+                if not ctx.want(cid):
+                    continue
+                ctx.case(cid, key=cid, trivial=not any(v))
+                P = dict(P0, form=fn)
+                for site, f, w, what in (('base.norm', lambda: b.norm(fm(a)), math.sqrt(float(a @ a)), 'norm'), ('base.normsq', lambda: b.normsq(fm(a)), float(a @ a), 'normsq'),
+                                         ('base.cross', lambda: np.ravel(b.cross(fm(a), fm(bb))), want, 'cross'), ('base.skew', lambda: b.skew(fm(a)), ref.skew(a), 'skew'),
+                                         ('base.skew', lambda: b.skew(fm(a)) @ bb, want, 'skew(a) b')):
+                    ok, r = call(f)
+                    if not ok:
+                        ctx.note('form_refused', '%s(%s) -> %s' % (site, fn, type(r).__name__))     # a refused container is C15's matter
+                    elif what == 'norm':
+                        if abs(float(r) - w) > 1e-12 * max(1, w):
+                            ctx.fail(cid, site, 'mismatch', dict(P, law='norm'), 'norm of the %s form is %r, expected %r' % (fn, r, w))
+                    else:
+                        exact(ctx, cid, site, dict(P, law=what), r, w, '%s (%s form)' % (what, fn))
+        for v in itertools.product((0.0, 1.0 * dil), repeat=6):
+            a = np.array(v) * np.array([1, -2, 1, 1, 1, -2.0])
+            for chk in (True, False):
+                cid = 'C13/opts/se3/d%d/%s/check=%d' % (dil, ''.join(str(int(x > 0)) for x in v), chk)
+                if not ctx.want(cid):
+                    continue
+                ctx.case(cid, key=cid, trivial=not any(v))
+                P = dict(P0, check=int(chk))
+                for site, f, w, what in (('base.vexa', lambda: b.vexa(ref.skewa(a), check=chk), a, 'vexa(skewa(S), check) = S'),
+                                         ('base.vex', lambda: b.vex(ref.skew(a[3:]), check=chk), a[3:], 'vex(skew(w), check) = w'),
+                                         ('base.vexa', lambda: b.vexa(ref.skewa(a[[0, 1, 5]]), check=chk), a[[0, 1, 5]], 'vexa(skewa(S2), check) = S2'),
+                                         ('base.vex', lambda: np.ravel(b.vex(ref.skew(a[5:]), check=chk)), a[5:], 'vex(skew(w) 2x2, check) = w')):
+                    ok, r = call(f)
+                    if not ok:
+                        ctx.fail(cid, site, 'raises:' + type(r).__name__, dict(P, law='option'), '%s raised %r on a valid algebra element' % (what, r))
+                    else:
+                        exact(ctx, cid, site, dict(P, law='option'), r, w, what)
 
 
 def poses(tier, seed):
